@@ -112,13 +112,14 @@ def run(F, S, R, tier):
     def extension():
         ev = F.one("ckb_verification_contextual", r"BlockExtensionVerifier::<.*>::verify$")
         K.cmp_table(R, "cmp/root", ev, [r"call:.*calc_mmr_hash$"], [r"call:.*new_unchecked$"], {"<": "ERR", "=": "CONT", ">": "ERR"}, K.classify_err(), what="committed root must equal the MMR root")
-        gr = ev.calls_to(r"mmr::MMR::<.*>::get_root$")
-        if gr and K.src_match(ev.operand_sources(gr[0].args[0]), [r"field:.*BlockExtensionVerifier\.chain_root_mmr"]):
+        evs = [ev] + K.same_crate_helpers(ev, depth=1)
+        gr = [c for b_ in evs for c in b_.calls_to(r"mmr::MMR::<.*>::get_root$")]
+        if gr and K.src_match(gr[0].body.operand_sources(gr[0].args[0]), [r"field:.*BlockExtensionVerifier\.chain_root_mmr"]):
             R.ok("prov/root-source", "the actual root is the root of the verifier's MMR", [gr[0].where()])
         else:
             R.bad("prov/root-source", "the extension verifier does not take the root from its MMR", [ev.where()])
         sl = [c for c in ev.calls_to(r"Bytes::slice$|::slice$")]
-        rng = [st[1] for blk in ev.blocks for st in blk["s"] if st[1].get("k") == "agg" and "RangeTo" in str(st[1].get("adt", ""))]
+        rng = [st[1] for b_ in evs for blk in b_.blocks for st in blk["s"] if st[1].get("k") == "agg" and "RangeTo" in str(st[1].get("adt", ""))]
         if rng and str(rng[0]["ops"][0].get("v")) == "32":
             R.ok("affine/root-bytes", "the committed root is the first 32 bytes of the extension", [ev.where()])
         else:
